@@ -2,6 +2,8 @@ use crate::engine::{self, Opts};
 use std::path::Path;
 
 pub mod c01;
+pub mod c02;
+pub mod c03;
 pub mod c17;
 
 macro_rules! props {
@@ -30,5 +32,7 @@ macro_rules! props {
 
 props! {
     "C01" => c01::C01,
+    "C02" => c02::C02,
+    "C03" => c03::C03,
     "C17" => c17::C17,
 }
